@@ -178,11 +178,9 @@ theorem stripWild_map_lower (rs : List Str) :
     congr 1
     apply List.filter_congr
     intro x _
-    have := lower_eq_star x
-    by_cases hx : x = star
-    · simp [bne, hx, this.2 hx]
-    · have hx' : ¬ lower x = star := fun h => hx (this.1 h)
-      simp [bne, hx, hx']
+    have h : (lower x == star) = (x == star) := by
+      rw [Bool.eq_iff_iff, beq_iff_eq, beq_iff_eq]; exact lower_eq_star x
+    simp [bne, h]
 
 /-! ### The declarative characterisation -/
 
